@@ -71,8 +71,10 @@ func (g *c05Gen) expr(c *gChart, allDefs []string) string {
 	if len(c.deps) > 0 {
 		sub = c.deps[g.r.Intn(len(c.deps))].name
 	}
-	def := c.name + ".name"
-	if len(allDefs) > 0 {
+	// mostly the chart's own defines; now and then one of a subchart (missing when that
+	// subchart is disabled: a legitimate execution error)
+	def := c.name + g.pick(".name", ".labels")
+	if len(allDefs) > 0 && g.chance(8) {
 		def = allDefs[g.r.Intn(len(allDefs))]
 	}
 	switch g.r.Intn(46) {
@@ -560,9 +562,12 @@ func c05GenChart(r *rand.Rand) c05Case {
 	// schema
 	if r.Intn(5) == 0 {
 		ref := c05RefForms[r.Intn(len(c05RefForms))]
+		if r.Intn(2) == 0 {
+			ref = "#/definitions/d"
+		}
 		files["values.schema.json"] = c05Schema(ref)
-		c.Values["refd"] = []any{1, "s", true, 2}[r.Intn(4)]
-		if r.Intn(4) == 0 {
+		c.Values["refd"] = []any{1, 7, 2, "s", true}[r.Intn(5)]
+		if r.Intn(6) == 0 {
 			c.Values["num"] = "not-a-number"
 		}
 		if len(root.deps) > 0 && r.Intn(3) == 0 {
